@@ -13,7 +13,7 @@ pub fn prop() -> HistProp {
         max_ops: 35,
         max_prepop: 14,
         cases_quick: 2500,
-        cases_thorough: 30_000,
+        cases_thorough: 120_000,
         nontrivial: |s, _| s.lower_only_ops >= 1 && s.multi_layer_ops >= 1,
         rule: "overlays of 1..4 layers (Mem/Phys/nested stacks) with generated type-consistent contents (same path in several layers with equal or different bytes, directories split across layers, empty layers); the initial view must equal the union (first layer wins for files, directories merge) and typed C01 histories vec(op,0..=35) must follow the C01 contract relative to it; non-trivial = >=1 op on an entry existing only in a lower layer and >=1 op on a path present in two layers",
         floors: vec![("distinct_nontrivial", 50), ("lower_only_mutations", 100)],
